@@ -119,15 +119,24 @@ pub enum Cmd {
     Ext(Vec<String>),
 }
 
-#[derive(Parser, Clone, Debug, PartialEq)]
+#[derive(Parser, Clone, PartialEq)]
 #[command(name = "tree")]
 pub struct Tree {
+    // (declared first on purpose: the generated constructor and updater handle the fields in declaration
+    // order, and nothing that follows a subcommand field may depend on whether a subcommand was given)
+    #[command(subcommand)]
+    cmd: Cmd,
     #[arg(long, global = true)]
     glob: Option<String>,
     #[command(flatten)]
     common: Common,
-    #[command(subcommand)]
-    cmd: Cmd,
+}
+
+// (printed in the order glob, common, cmd: stored scenarios carry the expected text of a round-trip)
+impl std::fmt::Debug for Tree {
+    fn fmt(&self, f: &mut std::fmt::Formatter<'_>) -> std::fmt::Result {
+        f.debug_struct("Tree").field("glob", &self.glob).field("common", &self.common).field("cmd", &self.cmd).finish()
+    }
 }
 
 #[derive(Subcommand, Clone, Debug, PartialEq)]
@@ -1147,7 +1156,7 @@ impl Engine for DeriveSim {
         Meta {
             engine: "derivesim",
             level: "exploration",
-            rule: "a scenario is one of five derived corpus types (Nest: optional subcommand enum whose variants hold a further optional subcommand, a nested subcommand container variant and a unit variant; Misc: rename_all, explicit id/short/long, default_missing_value, Option<flatten>, required positional, `last` positional Vec; Flat: bool, counter, T, Option<T>, Option<Option<T>>, Vec<T>, Option<Vec<T>>, default_value_t, value_delimiter, ValueEnum with rename/aliases/skip, positional, skip; Tree: global, flatten, required subcommand enum with struct/tuple/unit/nested/external variants, alias; OptSub: multi-value Vec<T> (num_args 1..), Option<Vec<T>> with num_args 0.. (Some(empty)), optional subcommand, trailing positional Vec; Vec<Vec<T>> needs the unstable-v5 feature and is not part of the default surface) plus an initial value and a history of 1-8 operations on ONE value: try_update_from naming a seed-chosen subset of fields (incl. subcommand switches and nested fields), failing updates (parse-phase and extraction-phase faults), parse-equivalence checks, round-trips of generated values, value-enum probes. Non-trivial = >= 2 operations with >= 1 comparison; distinct = distinct scenario hash. Added during the build phase: a flattened child enum, escaped external names, a Box-ed flattened group with a required member, a from_global field, a scalar field over a multi-valued argument, partial updates of the held variant, updates through command_for_update + update_from_arg_matches, from_arg_matches / from_arg_matches_mut",
+            rule: "a scenario is one of five derived corpus types (Nest: optional subcommand enum whose variants hold a further optional subcommand, a nested subcommand container variant and a unit variant; Misc: rename_all, explicit id/short/long, default_missing_value, Option<flatten>, required positional, `last` positional Vec; Flat: bool, counter, T, Option<T>, Option<Option<T>>, Vec<T>, Option<Vec<T>>, default_value_t, value_delimiter, ValueEnum with rename/aliases/skip, positional, skip; Tree: global, flatten, required subcommand enum with struct/tuple/unit/nested/external variants, alias; OptSub: multi-value Vec<T> (num_args 1..), Option<Vec<T>> with num_args 0.. (Some(empty)), optional subcommand, trailing positional Vec; Vec<Vec<T>> needs the unstable-v5 feature and is not part of the default surface) plus an initial value and a history of 1-8 operations on ONE value: try_update_from naming a seed-chosen subset of fields (incl. subcommand switches and nested fields), failing updates (parse-phase and extraction-phase faults), parse-equivalence checks, round-trips of generated values, value-enum probes. Non-trivial = >= 2 operations with >= 1 comparison; distinct = distinct scenario hash. Added during the build phase: a flattened child enum, escaped external names, a Box-ed flattened group with a required member, a from_global field, a scalar field over a multi-valued argument, partial updates of the held variant, updates through command_for_update + update_from_arg_matches, from_arg_matches / from_arg_matches_mut, a required subcommand field declared before the other fields",
             real_components: &["clap_derive (Parser, Args, Subcommand, ValueEnum) compiled from /repo", "clap_builder::derive (try_parse_from, try_update_from)", "the builder parser behind them"],
             stub_components: &["hand-written mirrors: value generators, canonical printers, field extraction against the builder API"],
             workload_only_clauses: &["parse-equivalence, field extraction per type shape and round-trip have no history in them; they are evaluated inside the update histories because the update oracle needs them"],
